@@ -802,7 +802,7 @@ def explore(run, stack=None, max_paths=10 ** 7, stop_on_violation=True, deadline
             if not any(x[3] == sv[3] for x in res.violations):
                 res.violations.append(sv)
         decisions = [t for t, _ in c.trace]
-        if status == 'ok' and out and 'observe' in out and XVAL_STRIDE and len(res.xval) < 8:
+        if status == 'ok' and not c.soft and out and 'observe' in out and XVAL_STRIDE and len(res.xval) < 8:
             import zlib as _z
             if (_z.crc32(bytes(decisions)) + XVAL_SEED) % XVAL_STRIDE == 0:
                 try:
